@@ -44,7 +44,9 @@ def program_slices(tier):
     return sl
 
 
-def enumerate_programs(tier, only=None):
+def enumerate_programs(tier, only=None, derive_cfg=None):
+    """-> (list of (slice, program[, prediction]), stats).  With derive_cfg (path of the configuration of
+    Derive.tla) the enumeration runs MC_Derive.tla and every program comes with the model's prediction."""
     progs = []
     stats = {"states": 0, "transitions": 0, "by_slice": {}}
     for name, cfg in program_slices(tier):
@@ -52,14 +54,20 @@ def enumerate_programs(tier, only=None):
             continue
         cp = os.path.join(vlib.BUILD, "prog-%s.json" % name)
         json.dump(cfg, open(cp, "w"))
-        r = vlib.run_tlc("Programs", "Programs.cfg", workers=12, env={"VERIF_CFG": cp}, timeout=1800, metatag="pg" + name)
-        vlib.tlc_must_succeed(r, "Programs " + name)
-        ps = r.payloads("CASE")
+        if derive_cfg:
+            r = vlib.run_tlc("MC_Derive", "MC_Derive.cfg", workers=12, env={"VERIF_CFG": cp, "VERIF_DERIVE": derive_cfg}, timeout=3000,
+                             tags=("PRED",), metatag="md" + name, xmx="8g")
+            vlib.tlc_must_succeed(r, "MC_Derive " + name)
+            ps = [(x["prog"], x) for x in r.payloads("PRED")]
+        else:
+            r = vlib.run_tlc("Programs", "Programs.cfg", workers=12, env={"VERIF_CFG": cp}, timeout=1800, metatag="pg" + name)
+            vlib.tlc_must_succeed(r, "Programs " + name)
+            ps = [(x, None) for x in r.payloads("CASE")]
         stats["states"] += r.distinct
         stats["transitions"] += r.generated
         stats["by_slice"][name] = len(ps)
-        for p in ps:
-            progs.append((name, p))
+        for p, pred in ps:
+            progs.append((name, p, pred))
         os.remove(cp)
     return progs, stats
 
